@@ -225,6 +225,54 @@ def run(chk):
          'addressing a field of a literal clashes, or missing fields are accepted',
          fi=rl.fi)
 
+  chk.rule('C05-R7', 'combine scoping of type variables: a combine sees the '
+           'variables of its enclosing scope and nothing of its sibling '
+           'combines (snapshot after the scope registered its own variables; '
+           'a fresh copy of the snapshot restored after every nested combine)',
+           min_instances=3)
+  jp = FnView(repo, 'infer.WalkInitializingVariables.JogPredicate')
+  TABLE = 'type_of_variable'
+
+  def fresh_copy_of(e, name):
+    if isinstance(e, ast.DictComp):
+      return any(name in norm(g.iter) for g in e.generators)
+    if isinstance(e, ast.Call):
+      t = call_tail(e)
+      if t in ('dict', 'deepcopy', 'copy') and e.args and dotted(e.args[0]) == name:
+        return True
+      if t == 'copy' and isinstance(e.func, ast.Attribute) and dotted(e.func.value) == name:
+        return True
+    return False
+  snaps = [(n, jp.cfg.stmt[n]) for n in jp.cfg.stmt_nodes()
+           if isinstance(jp.cfg.stmt[n], ast.Assign) and dotted(jp.cfg.stmt[n].targets[0]) != TABLE
+           and fresh_copy_of(jp.cfg.stmt[n].value, TABLE)]
+  if not snaps:
+    raise AnalysisError('JogPredicate: snapshot of the scope table not found')
+  sn, sst = snaps[0]
+  sname = dotted(sst.targets[0])
+  jogs = [n for n, c in jp.all_calls() if call_tail(c) == 'Jog']
+  chk.ob('C05-R7', bool(jogs) and jp.cfg.must_pass_before(sn, jogs), None,
+         "the scope is snapshotted after its own variables were registered",
+         'the snapshot is taken before Jog registered the variables of the scope: '
+         'after the first nested combine the outer variables are forgotten and '
+         'later combines get fresh, unrelated types for them (clashes are missed)',
+         fi=jp.fi, node=sst)
+  recs = [(n, c) for n, c in jp.all_calls() if call_tail(c) == 'JogPredicate']
+  restores = [(n, jp.cfg.stmt[n]) for n in jp.cfg.stmt_nodes()
+              if isinstance(jp.cfg.stmt[n], ast.Assign) and
+              dotted(jp.cfg.stmt[n].targets[0]) == TABLE]
+  chk.ob('C05-R7', bool(recs) and bool(restores) and all(
+      any(rn in jp.cfg.reachable(cn) for rn, _ in restores) for cn, _ in recs), None,
+         'the scope table is restored after every nested combine',
+         'variables of a nested combine stay visible to what follows it', fi=jp.fi)
+  for rn, rst in restores:
+    chk.ob('C05-R7', fresh_copy_of(rst.value, sname), None,
+           'the restored table is a fresh copy of the snapshot',
+           'the table is restored to `%s` itself: the next combine registers its '
+           'variables in the snapshot, so the combine after it sees them - three '
+           'sibling combines reusing a local name at different types are '
+           'rejected with a bogus clash' % norm(rst.value, 40), fi=jp.fi, node=rst)
+
   chk.rule('C05-R3', 'whole-program checking (__init__) and per-structure '
            'checking (SingleRuleSql) are gated by the same predicate '
            'Annotations.ShouldTypecheck()', min_instances=2)
